@@ -177,7 +177,7 @@ func zeroData(vars map[string]int64, ast *gen.Block) map[string]int64 {
 // c01CasesFor expands programs into stepwise (+ storm) cases.
 func c01CasesFor(progs []c01Prog, rng *fw.Rng, maxData, maxOrders, stormReps int, wrap func(*gen.Block) *gen.Block) []fw.Case {
 	var cs []fw.Case
-	for _, p := range progs {
+	for pi, p := range progs {
 		ast := p.AST
 		if wrap != nil {
 			ast = wrap(ast)
@@ -186,6 +186,9 @@ func c01CasesFor(progs []c01Prog, rng *fw.Rng, maxData, maxOrders, stormReps int
 			}
 		}
 		g := gen.Lower("p", ast)
+		// every third program is written with its sequence flows in reverse document order: the order in which
+		// a node lists its outgoing flows decides, not the order of the flow elements in the document
+		g.FlowsReversed = pi%3 == 2
 		for di, vars := range assignments(p.NV, maxData, rng) {
 			zeroData(vars, ast)
 			base := step.Case{Name: fmt.Sprintf("%s/d%d", p.Name, di), G: g, Vars: vars, Family: p.Family, Lenient: hasOr(g)}
